@@ -838,11 +838,15 @@ class Terminal:
             logging.error('terminal %s received unexpected mail %s "%s"',
                           self.name, etype, edata)
         assert self.mbx_out_off is not None, "not send mailbox defined"
-        await self.write(self.mbx_out_off, "HHBB", datasize(args, data),
+        size = datasize(args, data)
+        await self.write(self.mbx_out_off, "HHBB", size,
                          address, channel | priority << 6,
                          type.value | self.mbx_lock.next_counter() << 4,
                          *args, data=data)
-        await self.write(self.mbx_out_off + self.mbx_out_sz - 1, data=1)
+        if 6 + size < self.mbx_out_sz:
+            # writing the last byte hands the mailbox to the terminal,
+            # unless the mail itself reached it already
+            await self.write(self.mbx_out_off + self.mbx_out_sz - 1, data=1)
 
     async def mbx_recv(self):
         """receive data from the mailbox"""
